@@ -33,6 +33,11 @@ func (t Token) Is(ty TokenType) bool {
 }
 
 func (t Token) Source(input []byte) []byte {
+	// The EOF token is positioned after the last byte of the input,
+	// it has no source
+	if t.Type == TokenEOF {
+		return nil
+	}
 	startOffset := t.StartPos.Offset
 	endOffset := t.EndPos.Offset + 1
 	return input[startOffset:endOffset]
